@@ -53,7 +53,7 @@ def _work(job):
         und = [c for c, v in r.clauses.items() if v['verdict'] == 'undecided']
         if und and not r.error and not r.unsupported and os.environ.get('PYVC_NO_SMALL_SCOPE') != '1':
             # small-scope refutation search for what the unbounded attempt left open
-            r2 = verify_function(target, only=None, timeout_ms=min(timeout_ms, 5000), bound=2)
+            r2 = verify_function(target, only=None, timeout_ms=min(timeout_ms, 2500), bound=2)
             for c in und:
                 base = c.split('#')[0]
                 for c2, v2 in r2.clauses.items():
